@@ -51,15 +51,15 @@ def representable(v, dtype):
 
 
 def f8_code(byte, qt):
-    """uint8 byte of a float8 payload -> [sgn, j] (j = magnitude index), or 'nan'."""
+    """uint8 byte of a float8 payload -> [sgn, j] (j = magnitude index); NaN -> [0, -1], inf -> [0, -2]."""
     j = byte & 0x7F
     s = -1 if byte & 0x80 else 1
     if qt in ("qfloat8_e4m3fn", "qfloat8"):
         if j == 0x7F:
-            return "nan"
+            return [0, -1]
     else:
         if j > 0x7B:
-            return "nan" if j > 0x7C else "inf"
+            return [0, -1] if j > 0x7C else [0, -2]
     return [s, j]
 
 
